@@ -13,10 +13,11 @@ def jobs(tier):
         for ln in lengths:
             idxs = sorted(set([-1, 0, ln - 1, ln, ln + 1, 9]) - {-2}) if tier == "quick" else range(-1, 11)
             for op in range(5):
-                for ix in (idxs if op in (0, 1, 3) else (0,)):
+                for ix, addv in [(ix, addv) for ix in (idxs if op in (0, 1, 3) else (0,))
+                                 for addv in ((0, 1) if op == 0 else (1,))]:
                     d = ["-DLIST_ALLOC=%d" % a, "-DLIST_FIX", "-DLIST_LENGTH=%d" % ln, "-DLIST_OP=%d" % op,
-                         "-DLIST_INDEX=(%d)" % ix]
-                    J.append(V.Job("list.alloc%d_len%d_op%d_ix%s" % (a, ln, op, str(ix).replace("-", "m")), H,
+                         "-DLIST_INDEX=(%d)" % ix, "-DLIST_ADD=%d" % addv]
+                    J.append(V.Job("list.alloc%d_len%d_op%d_ix%s%s" % (a, ln, op, str(ix).replace("-", "m"), "_noadd" if (op == 0 and not addv) else ""), H,
                                    "h_list", [], defines=d, unwind=18, shim=False, kind="bounded",
                                    canary=(a == 8 and ln == 7 and ix in (3, 6, 0)),
                                    functions=["list_subtree", "list_insert", "list_append", "list_delete",
